@@ -1126,6 +1126,48 @@ func (te *TemplateEngine) cloneParagraphProperties(source *ParagraphProperties) 
 		}
 	}
 
+	// 复制段落边框
+	if source.ParagraphBorder != nil {
+		cloneLine := func(l *ParagraphBorderLine) *ParagraphBorderLine {
+			if l == nil {
+				return nil
+			}
+			c := *l
+			return &c
+		}
+		props.ParagraphBorder = &ParagraphBorder{
+			Top:    cloneLine(source.ParagraphBorder.Top),
+			Left:   cloneLine(source.ParagraphBorder.Left),
+			Bottom: cloneLine(source.ParagraphBorder.Bottom),
+			Right:  cloneLine(source.ParagraphBorder.Right),
+		}
+	}
+
+	// 复制网格对齐、分页与孤行控制、大纲级别
+	if source.SnapToGrid != nil {
+		props.SnapToGrid = &SnapToGrid{Val: source.SnapToGrid.Val}
+	}
+	if source.KeepNext != nil {
+		c := *source.KeepNext
+		props.KeepNext = &c
+	}
+	if source.KeepLines != nil {
+		c := *source.KeepLines
+		props.KeepLines = &c
+	}
+	if source.PageBreakBefore != nil {
+		c := *source.PageBreakBefore
+		props.PageBreakBefore = &c
+	}
+	if source.WidowControl != nil {
+		c := *source.WidowControl
+		props.WidowControl = &c
+	}
+	if source.OutlineLevel != nil {
+		c := *source.OutlineLevel
+		props.OutlineLevel = &c
+	}
+
 	return props
 }
 
